@@ -101,10 +101,11 @@ typedef struct {
         char err[80];
         /* self-test expectations (x* tokens) */
         imbh_bytes xout, xtag;
-        int64_t xoff; /* byte offset of xout in the dst area, -1 = cipher offset */
+        int64_t xoff; /* byte offset of xout in the dst area, -1 = 0 */
         int xbitoff;
         int64_t xbits; /* number of bits of xout compared, -1 = all */
         int xstatus;   /* expected status, default 3 */
+        int xloose;    /* tag bytes beyond xtag are not defined by the library */
 } imbh_item;
 
 int
